@@ -98,7 +98,13 @@ class Interp(BuiltinsMixin):
         if len(res) != 1 or isinstance(res[0][1], Raise):
             return App('modvalue', Const(b.module.name),
                        Const(ast.dump(node)[:60]))
-        return res[0][1]
+        v = res[0][1]
+        if isinstance(v, Obj):
+            # module-level mutable object: shared state, not a fresh value
+            return App('global', Const(b.module.name),
+                       Const(ast.unparse(node)[:60]),
+                       self.snapshot(v, path))
+        return v
 
     def module_frame(self, module, path):
         fo = path.alloc('frame')
@@ -629,6 +635,14 @@ class Interp(BuiltinsMixin):
             f.vars[st.target.id] = after.fresh('last_' + st.target.id,
                                                meta=('elem', loop.iterable))
         after.notes.append(('loop', loop))
+        if not is_for and not any(sig == BRK for (_, sig) in results):
+            # leaving a `while` without break: its test is false now
+            try:
+                tv = self.eval(st.test, fr, after)
+                if len(tv) == 1 and not isinstance(tv[0][1], Raise):
+                    self.assume(self.snapshot(tv[0][1], after), False, after)
+            except Inconclusive:
+                pass
         # falling out of the loop: no iteration took an early exit
         for e in exits:
             if (e, False) not in after.pc:
